@@ -143,6 +143,13 @@ func genGWMix(g *Gen, weird float64, tag string) *Plan {
 		p.Broker.Injects = append(p.Broker.Injects, BrokerInject{AtMs: g.Range(2000, end+1), Session: "p1", Force: true, Topic: "t/a", Payload: serialPayload("big:", 0, sz), QoS: uint8(g.Intn(3))})
 	}
 	if g.Bool(0.1) {
+		// long topic names from the broker (the REGISTER that announces them has its own size limits:
+		// the 1-octet/3-octet length forms and the datagram size)
+		sz := int([]int64{244, 249, 250, 251, 252, 300, 8170, 8183, 8184, 8186, 8200, 20000}[g.Intn(12)])
+		name := "long/" + string(serialPayload("n", 0, sz))
+		p.Broker.Injects = append(p.Broker.Injects, BrokerInject{AtMs: g.Range(2000, end+1), Session: "p1", Force: true, Topic: name[:sz], Payload: []byte("x"), QoS: uint8(g.Intn(3))})
+	}
+	if g.Bool(0.1) {
 		p.Broker.SubackCodes = []byte{[]byte{0, 1, 2, 0x80}[g.Intn(4)]}
 	}
 	p.Cfg.HorizonMs = end + 3000
